@@ -28,8 +28,11 @@ E = {'e-none': None, 'e-default': {'kdf': FK}, 'e-chacha': {'kdf': FK, 'cipher':
      'e-aes-192': {'kdf': FK, 'cipher': {'name': 'aes_gcm', 'key_bits': 192}}, 'e-aes-100': {'kdf': FK, 'cipher': {'name': 'aes_gcm', 'key_bits': 100}},
      'e-kdf-n3': {'kdf': {'n': 3}}, 'e-kdf-r-str': {'kdf': {'n': 4, 'r': '8'}}, 'e-nonce-64': {'kdf': FK, 'cipher': {'name': 'aes_gcm', 'nonce_bits': 64}},
      'e-nonce-0': {'kdf': FK, 'cipher': {'name': 'aes_gcm', 'nonce_bits': 0}}, 'e-unknown-group': {'kdf': FK, 'mac': {'name': 'blake2b'}},
-     'e-kdf-unknown-param': {'kdf': {'n': 4, 'rounds': 3}}, 'e-cipher-unknown': {'kdf': FK, 'cipher': {'name': 'rot13'}}, 'e-kdf-n-2': {'kdf': {'n': 2}}}
-K = {'k-default': FK, 'k-n8': {'n': 8}, 'k-r4': {'n': 4, 'r': 4}}
+     'e-kdf-unknown-param': {'kdf': {'n': 4, 'rounds': 3}}, 'e-cipher-unknown': {'kdf': FK, 'cipher': {'name': 'rot13'}}, 'e-kdf-n-2': {'kdf': {'n': 2}},
+     'e-kdf-blake2b': {'kdf': {'name': 'blake2b'}}, 'e-kdf-blake2b-chacha': {'kdf': {'name': 'blake2b'}, 'cipher': {'name': 'chacha20_poly1305'}},
+     'e-kdf-blake2b-aes-128': {'kdf': {'name': 'blake2b'}, 'cipher': {'name': 'aes_gcm', 'key_bits': 128}},
+     'e-nonce-128-aes-192': {'kdf': FK, 'cipher': {'name': 'aes_gcm', 'key_bits': 192, 'nonce_bits': 128}}}
+K = {'k-default': FK, 'k-n8': {'n': 8}, 'k-r4': {'n': 4, 'r': 4}, 'k-blake2b': {'name': 'blake2b'}}
 
 
 def build(h, c, e, x):
@@ -129,12 +132,13 @@ def chain_events(chain, d, rng):
 def classify(e):
     if e.get('a') == 'init':
         h, c, en, x = e['point']
+        if h == 'h-blake2b-1' and e.get('accepted') and e.get('unlock'):
+            # whatever the other groups are: with a 1-byte digest the round trip goes wrong because distinct chunks collide
+            return 'digest so short that distinct chunks collide'
         if h in ('h-blake2b-65', 'h-blake2b-0', 'h-blake2b-neg', 'h-blake2b-str'):
             return 'blake2b digest length is not validated at init'
         if c in ('c-min-0', 'c-min-neg', 'c-max-str', 'c-float'):
             return 'chunker lengths are not validated at init'
-        if h == 'h-blake2b-1':
-            return 'digest so short that distinct chunks collide'
     return 'any'
 
 
